@@ -562,19 +562,59 @@ class FindReads(Visitor):
         if self.candidate_set is not None:
             self.candidate_set |= candidate_set
 
+    def _visit_alternatives(self, bodies, **kwargs):
+        """
+        Visit each of the alternative :data:`bodies` with the original candidate
+        set and take the union afterwards, because only one of them is executed.
+        An empty body stands for the case that none of the others is executed.
+        """
+        original = self.candidate_set.copy() if self.candidate_set is not None else None
+        merged = None
+        for body in bodies:
+            self.candidate_set = original.copy() if original is not None else None
+            self.visit(body, **kwargs)
+            if self.candidate_set is not None:
+                merged = self.candidate_set if merged is None else merged | self.candidate_set
+        self.candidate_set = merged
+
+    def visit_MultiConditional(self, o, **kwargs):
+        self._register_reads(self._symbols_from_expr((o.expr, o.values)))
+        self._visit_alternatives((*o.bodies, o.else_body), **kwargs)
+
+    visit_TypeConditional = visit_MultiConditional
+
+    def visit_MaskedStatement(self, o, **kwargs):
+        self._register_reads(self._symbols_from_expr(o.conditions))
+        # The masks select a subset of the elements, the others keep their value
+        self._visit_alternatives((*o.bodies, o.default, ()), **kwargs)
+
     def visit_Loop(self, o, **kwargs):
         self._register_reads(self._symbols_from_expr(o.bounds))
         active = self.active
         if self.active and self.candidate_set is not None:
             # remove the loop variable as a variable of interest
             self.candidate_set.discard(o.variable)
-        self.visit(o.children, **kwargs)
+        # The loop body may not be executed at all
+        self._visit_alternatives((o.body, ()), **kwargs)
         if active:
             self.reads.discard(o.variable)
 
     def visit_WhileLoop(self, o, **kwargs):
         self._register_reads(self._symbols_from_expr(o.condition))
-        self.visit(o.children, **kwargs)
+        # The loop body may not be executed at all
+        self._visit_alternatives((o.body, ()), **kwargs)
+
+    def visit_Forall(self, o, **kwargs):
+        index_vars = tuple(v for v, _ in o.named_bounds)
+        self._register_reads(self._symbols_from_expr((tuple(r for _, r in o.named_bounds), o.mask)))
+        active = self.active
+        if self.active and self.candidate_set is not None:
+            # remove the index variables as variables of interest
+            self.candidate_set -= OrderedSet(index_vars)
+        # The mask or empty index ranges may leave elements untouched
+        self._visit_alternatives((o.body, ()), **kwargs)
+        if active:
+            self.reads -= OrderedSet(index_vars)
 
 
 class FindWrites(Visitor):
